@@ -110,7 +110,7 @@ func genC10(t *rapid.T) c10Case {
 		return c10Case{Single: true, NumByte: n, Seed: rapid.Uint64().Draw(t, "seed"), PlanKind: kind, Stream: streamCase{Plan: plan}}
 	}
 	wn := c07Workflow()
-	sc := drawStream(t, wn, []string{"allpass", "allpass", "allpass", "random", "passcount", "uniformity"})
+	sc := drawStream(t, wn, []string{"allpass", "allpass", "one-bad", "one-bad", "random", "passcount", "uniformity"})
 	sc.Fast = rapid.Bool().Draw(t, "fast")
 	if mode == "factory" || mode == "poweron" {
 		sc.Fast = envInt("VERIF_FAST", 1) == 1
